@@ -170,6 +170,40 @@ def run(ctx):
     ctx.cov['traces_validated_against_impl'] = tstats['compared']
     ctx.sample({'program': list(progs.values())[0].source()[:700]})
     # ---------------- verdict
+    # a trace that differs from the C semantics' may be a wrong BRANCH of a known C01-class defect
+    # (signed comparisons, ...): minimise the program while its trace still differs, attribute by feature
+    from lib.shrink import shrink
+    from lib.features import features
+    open_f = [f for f in ctx.findings if f.get('status') == 'open' and f.get('features')]
+    kept = []
+    budget = 6 if quick else 40
+    for v in tviol:
+        if not v.get('vs_c') or budget <= 0:
+            kept.append(v)
+            continue
+        budget -= 1
+        lv = v['level']
+
+        def batch(cands, lv=lv):
+            ps = {'c%d' % i: c for i, c in enumerate(cands)}
+            try:
+                tv, _ = trace_pass(ctx, ps, [lv], 8, random.Random(5))
+            except Exception:
+                return [False] * len(cands)
+            bad = set(x.get('pid') for x in tv if x.get('vs_c'))
+            return [('c%d' % i) in bad for i in range(len(cands))]
+        small = progs[v['pid']]
+        if batch([small])[0]:
+            small = shrink(small, batch, max_rounds=40)
+        fs = features(small)
+        att = [f for f in open_f if set(f['features']) <= fs]
+        if att:
+            ctx.known_finding(att[0]['id'], att[0]['text'])
+            continue
+        v['minimised_program'] = small.source()
+        v['features'] = sorted(fs)
+        kept.append(v)
+    tviol = kept
     allv = marked_bad + tviol + viol
     known = {f['id']: f for f in ctx.findings if f.get('status') == 'open'}
     for v in allv[:3]:
@@ -249,7 +283,7 @@ def trace_pass(ctx, progs, levels, nstates, rng):
                 got = machine_events(m['trace'])
                 if got != exp:
                     viol.append({'why': 'executed hardware-access trace differs from the source\'s', 'level': O,
-                                 'expected': exp, 'got': got, 'source': srcs[pid],
+                                 'expected': exp, 'got': got, 'source': srcs[pid], 'pid': pid, 'vs_c': True,
                                  'initial': describe_state(lay, states[k], None)})
                     break
             else:
